@@ -95,5 +95,11 @@ class BlockComment(base.RawTokenModel, _value_properties.RWValueWithIndent[str],
             for line in _splitlines(value)
         )
 
+    def detach(self) -> list[base.RawTokenModel]:
+        tokens = super().detach()
+        # A comment is handed over to be inserted somewhere: whoever takes it owns it, whatever its previous owner had recorded.
+        self._claimed = True
+        return tokens
+
     def _clone(self: 'BlockComment') -> 'BlockComment':
         return type(self)(self.raw_text, self.indent, self.value, claimed=self.claimed)
